@@ -68,6 +68,9 @@ theorem lifecycle_four :
 theorem join_certified : table.joinCertifiedIn (reachClaim .controller) (reachClaim .filter) = true := by
   decide +kernel
 
+/-- locksets only on rows whose object is `this`, and made of mutex members only -/
+theorem locks_certified : table.locksCertifiedB = true := by decide +kernel
+
 /-! ### consequences (no evaluation) -/
 
 theorem fieldOK_iff (f : Nat) :
